@@ -83,6 +83,9 @@ def runtime_obj(cwd, name="rt.o"):
     return name
 
 
+COMMON_ALIGN = {1: 64, 4: 32, 8: 8, 16: 128, 24: 8, 64: 16}
+
+
 def file_asm(spec):
     """Assembly text of one file spec (deterministic)."""
     out = ['.section .note.GNU-stack,"",@progbits']
@@ -92,7 +95,10 @@ def file_asm(spec):
         defined.add(n)
         vis = d.get("vis", "default")
         if strength == "common":
-            out.append(f".comm {n},{d.get('size', 8)},8")
+            # Alignment varies with the size so that a smaller common can carry the larger alignment
+            # (size and alignment-padded size must not be confused when picking the largest common).
+            size = d.get('size', 8)
+            out.append(f".comm {n},{size},{COMMON_ALIGN.get(size, 8)}")
             if vis != "default":
                 out.append(f".{vis} {n}")
             continue
@@ -113,6 +119,12 @@ def file_asm(spec):
             out.append(f'.section .data.{n},"aw{g}",@progbits{comdat}')
             out.append(f".balign 8\n{n}:\n  .quad {d['id']}")
             out.append(f".size {n},8")
+    if spec.get("filler_syms"):
+        # Many local symbols: pushes the object's symbol count across the linker's internal chunk sizes,
+        # with the undefined references (emitted below) at the very end of the symbol table.
+        out.append('.section .data.fill,"aw",@progbits')
+        out.append("\n".join(f"fill_{i}:" for i in range(spec["filler_syms"])))
+        out.append("  .quad 0")
     for m in spec.get("markers", []):
         out.append(f'.globl {m}\n.type {m},@object\n.section .data.{m},"aw",@progbits\n{m}:\n  .quad 0x6d61726b\n.size {m},8')
     for r in spec.get("refs", []):
